@@ -35,6 +35,13 @@ def gen_graph_model(rng, profile="mixed", max_types=4, max_rels=4, depth=2, wild
                     refs.append([S(ty), [0], S(cond)])
             else:
                 refs.append([S(ty), [0], S(cond)])
+        # the same parent type twice, once conditioned (de-duplicated edges), followed by something else
+        if use_conds and refs and rng.random() < 0.2:
+            k = rng.randrange(len(refs))
+            dup = [refs[k][0], refs[k][1], S(rng.choice(CONDS)) if not T(refs[k][2]) else S("")]
+            refs.insert(k + 1, dup)
+            if k + 2 >= len(refs):
+                refs.append([S(rng.choice(tnames)), [0], S("")])
         directs[(t, r)] = refs
 
     def plain_parent_types(t, r):
